@@ -1,4 +1,5 @@
-(* C08 - hereditary model: dataclasses nested in dataclasses (mixin path).
+(* C08 - hereditary model: dataclasses nested in dataclasses (mixin root; nested classes are
+   mixin subclasses or plain dataclasses, with or without a Config of their own).
    A field of dataclass type is packed by `value.__mashumaro_to_dict__(<flags>)` where <flags>
    are the keyword flags enabled on both classes (kernel K8); a Union of dataclasses tries
    the members' call expressions in order (pack_union).  Every class body is OptProj.body. *)
@@ -10,16 +11,23 @@ Open Scope string_scope.
 (* class-level options and fields; [members] of a field: [] = not a dataclass field,
    [c] = field of class c, [c1; c2; ...] = Union[c1, c2, ...] *)
 Record cls := {
+  c_mixin : bool;          (* subclass of DataClassDictMixin: compiled by itself at class creation;
+                              false: plain dataclass, compiled by the first builder that meets it *)
   c_cfgd : option ns; c_cfg : ns; c_sort : bool; c_flags : flags;
   c_fields : list (fplan * list nat);
 }.
+
+(* pack_dataclass: the builder created for a nested class that has no to_dict yet receives
+   default_dialect = <default dialect of the compiling builder> -- NOT its Config.dialect, NOT its
+   call dialect (kernel K14).  Arguments: the compiling builder's default dialect, dialect, Config.dialect *)
+Definition pass_dd (builder_dd builder_dialect cfg_dialect: option ns) : option ns := builder_dd.
 
 (* keyword arguments received by a to_dict call *)
 Record kwv := { kw_on : option bool; kw_ba : option bool; kw_dl : option ns }.
 Definition no_kw : kwv := {| kw_on := None; kw_ba := None; kw_dl := None |}.
 
-Definition opts_of (c: cls) (k: kwv) : opts :=
-  {| o_call := k.(kw_dl); o_cfgd := c.(c_cfgd); o_cfg := c.(c_cfg); o_dd := None; o_sort := c.(c_sort);
+Definition opts_of (c: cls) (k: kwv) (dd: option ns) : opts :=
+  {| o_call := k.(kw_dl); o_cfgd := c.(c_cfgd); o_cfg := c.(c_cfg); o_dd := dd; o_sort := c.(c_sort);
      o_fon := c.(c_flags).(g_on); o_fba := c.(c_flags).(g_ba); o_fdl := c.(c_flags).(g_dl); o_fcx := c.(c_flags).(g_cx);
      o_kon := k.(kw_on); o_kba := k.(kw_ba) |}.
 
@@ -38,7 +46,8 @@ Definition flags_eqb (a b: flags) : bool :=
 (* instances *)
 Inductive node :=
 | NLeaf (raw packed: pv)              (* any non-dataclass value (also None in an Optional[Inner] field) *)
-| NObj (cid: nat) (fs: list node).    (* instance of class cid with its field values in declaration order *)
+| NObj (cid: nat) (fs: list node)     (* instance of class cid with its field values in declaration order *)
+| NList (items: list node).           (* value of a List[<dataclass>] field *)
 
 Section Table.
   Variable ct : list cls.
@@ -57,25 +66,41 @@ Section Table.
   Definition pick_spec (outer: flags) (members: list nat) (cid: nat) : option flags :=
     if existsb (Nat.eqb cid) members then Some (both outer (flags_c cid)) else None.
 
+  (* default dialect the method of class c was compiled with: a mixin subclass compiles itself
+     (DataClassDictMixin: none); a plain dataclass gets what the compiling builder passes down *)
+  Definition dd_of (c: cls) (pd: option ns) : option ns := if c.(c_mixin) then None else pd.
+
   (* [spec = false]: the generated code; [spec = true]: the reference (hereditary projection of
-     the plain output).  Result: (raw, packed) of the field holding the node; None = raises. *)
-  Fixpoint pack_h (spec: bool) (n: node) (members: list nat) (outer: flags) (avail: kwv) {struct n} : option fval :=
+     the plain output).  [pd]: default dialect passed down by the owner of the field.
+     Result: (raw, packed) of the field holding the node; None = raises. *)
+  Fixpoint pack_h (spec: bool) (n: node) (members: list nat) (outer: flags) (avail: kwv) (pd: option ns)
+           {struct n} : option fval :=
     match n with
     | NLeaf raw packed => Some (raw, packed)
+    | NList items =>
+        match (fix go (l: list node) {struct l} : option (list pv) :=
+                 match l with
+                 | [] => Some []
+                 | x :: r => match pack_h spec x members outer avail pd, go r with
+                             | Some v, Some t => Some (snd v :: t)
+                             | _, _ => None end end) items with
+        | Some l => Some (POpq (S (List.length items)), PList l)
+        | None => None end
     | NObj cid ch =>
         match nth_error ct cid, (if spec then pick_spec else pick_impl) outer members cid with
         | Some c, Some fl =>
-            let o := opts_of c (restrict fl avail) in
+            let o := opts_of c (restrict fl avail) (dd_of c pd) in
             (* values of the keyword parameters inside the running method of c *)
             let avail' :=
                 if spec then {| kw_on := Some (e_on (eff_of o)); kw_ba := Some (e_ba (eff_of o)); kw_dl := o.(o_call) |}
                 else {| kw_on := Some (r_on (ctx_of o)); kw_ba := Some (r_ba (ctx_of o)); kw_dl := o.(o_call) |} in
+            let pd' := pass_dd (dd_of c pd) o.(o_call) c.(c_cfgd) in
             let vs := (fix go (ch: list node) (fs: list (fplan * list nat)) {struct ch} : option (list fval) :=
                          match ch, fs with
                          | [], [] => Some []
                          | x :: ch', f :: fs' =>
                              match f with (_, mem') =>
-                               match pack_h spec x mem' c.(c_flags) avail', go ch' fs' with
+                               match pack_h spec x mem' c.(c_flags) avail' pd', go ch' fs' with
                                | Some v, Some r => Some (v :: r)
                                | _, _ => None end end
                          | _, _ => None end) ch c.(c_fields) in
@@ -94,26 +119,30 @@ Section Table.
   (* hereditary side conditions (computed along the same recursion, with the reference values):
      at every dataclass node: kw_ok, flag_defaults_ok (no D14), vals_ok, and no D8b
      (the union's first accepting member forwards the same flags as the value's own class) *)
-  Fixpoint ok_h (n: node) (members: list nat) (outer: flags) (avail: kwv) {struct n} : bool :=
+  Fixpoint ok_h (n: node) (members: list nat) (outer: flags) (avail: kwv) (pd: option ns) {struct n} : bool :=
     match n with
     | NLeaf _ _ => true
+    | NList items =>
+        (fix go (l: list node) {struct l} : bool :=
+           match l with [] => true | x :: r => ok_h x members outer avail pd && go r end) items
     | NObj cid ch =>
         match nth_error ct cid, pick_spec outer members cid, pick_impl outer members cid with
         | Some c, Some fl, Some fl' =>
-            let o := opts_of c (restrict fl avail) in
+            let o := opts_of c (restrict fl avail) (dd_of c pd) in
             let avail' := {| kw_on := Some (e_on (eff_of o)); kw_ba := Some (e_ba (eff_of o)); kw_dl := o.(o_call) |} in
+            let pd' := pass_dd (dd_of c pd) o.(o_call) c.(c_cfgd) in
             flags_eqb fl fl' && kw_ok o && flag_defaults_ok o &&
             (fix go (ch: list node) (fs: list (fplan * list nat)) {struct ch} : bool :=
                match ch, fs with
                | [], [] => true
-               | x :: ch', f :: fs' => match f with (_, mem') => ok_h x mem' c.(c_flags) avail' && go ch' fs' end
+               | x :: ch', f :: fs' => match f with (_, mem') => ok_h x mem' c.(c_flags) avail' pd' && go ch' fs' end
                | _, _ => false end) ch c.(c_fields) &&
             match (fix go (ch: list node) (fs: list (fplan * list nat)) {struct ch} : option (list fval) :=
                      match ch, fs with
                      | [], [] => Some []
                      | x :: ch', f :: fs' =>
                          match f with (_, mem') =>
-                           match pack_h true x mem' c.(c_flags) avail', go ch' fs' with
+                           match pack_h true x mem' c.(c_flags) avail' pd', go ch' fs' with
                            | Some v, Some r => Some (v :: r)
                            | _, _ => None end end
                      | _, _ => None end) ch c.(c_fields) with
@@ -126,5 +155,5 @@ Section Table.
   (* top-level call x.to_dict(kw...) on an instance of class cid *)
   Definition root_flags : flags := {| g_on := true; g_ba := true; g_dl := true; g_cx := true |}.
   Definition to_dict_h (spec: bool) (n: node) (cid: nat) (k: kwv) : option pv :=
-    match pack_h spec n [cid] root_flags k with Some (_, d) => Some d | None => None end.
+    match pack_h spec n [cid] root_flags k None with Some (_, d) => Some d | None => None end.
 End Table.
